@@ -57,8 +57,11 @@ enum PK {
     MprotectRxRefused,
     /// the value expression of an async fake panics; the await is contained by the test body, which goes on
     UserInAsyncValue,
+    /// two over-budget calls are contained by the test body (the counter runs two ahead of the budget), then the
+    /// user panics: the injector goes away by unwinding with a verdict it must keep to itself
+    TwoOverCallsCaughtThenUserPanic,
 }
-const KINDS_ALL: [PK; 24] = [PK::InstallDuringUnwind, PK::ManyLiveFakes, PK::MprotectRxRefused, PK::UserInAsyncValue, PK::SigMismatchOnFakedTarget, PK::UserMunmapFails, PK::MprotectFailSecondPage, PK::UserNonString, PK::UserInReturns, PK::UserInClosure, PK::OverCallCaught, PK::None, PK::User, PK::WhenReject, PK::OverCall, PK::SigMismatch, PK::SigMismatchFakeMacro, PK::NullTarget, PK::NullFake, PK::BoolOnNonBool, PK::AsyncWrongOutput, PK::MmapFail, PK::MprotectFail, PK::UncheckedMix];
+const KINDS_ALL: [PK; 25] = [PK::TwoOverCallsCaughtThenUserPanic, PK::InstallDuringUnwind, PK::ManyLiveFakes, PK::MprotectRxRefused, PK::UserInAsyncValue, PK::SigMismatchOnFakedTarget, PK::UserMunmapFails, PK::MprotectFailSecondPage, PK::UserNonString, PK::UserInReturns, PK::UserInClosure, PK::OverCallCaught, PK::None, PK::User, PK::WhenReject, PK::OverCall, PK::SigMismatch, PK::SigMismatchFakeMacro, PK::NullTarget, PK::NullFake, PK::BoolOnNonBool, PK::AsyncWrongOutput, PK::MmapFail, PK::MprotectFail, PK::UncheckedMix];
 
 #[derive(Clone, Debug)]
 struct Script {
@@ -220,6 +223,18 @@ fn body(pool: &Pool, s: &Script, rng: &mut Rng, obs: &mut Obs) {
         match s.kind {
             PK::None => {}
             PK::User => panic!("USER: injected at position {}", s.pos),
+            PK::TwoOverCallsCaughtThenUserPanic => {
+                let _ = install(inj, &pool.targets[method], Kind::FakeTimes, 0, 1);
+                let st = S { k: 1 };
+                let _ = st.m(5);
+                for _ in 0..2 {
+                    if std::panic::catch_unwind(|| S { k: 1 }.m(5)).is_ok() {
+                        panic!("USER: HARNESS-MODEL over-call was admitted");
+                    }
+                }
+                let _ = panicobs::take();
+                panic!("USER: injected at position {} after two contained over-calls", s.pos)
+            }
             PK::UserNonString => std::panic::panic_any(0xC05_u32),
             PK::InstallDuringUnwind => {
                 struct InstallsOnDrop(*mut InjectorPP);
@@ -514,7 +529,7 @@ pub fn run(ctx: &Ctx) {
                     "no-panic"
                 }
             }
-            PK::User | PK::UserNonString | PK::UserInReturns | PK::UserInClosure | PK::UserMunmapFails | PK::InstallDuringUnwind | PK::ManyLiveFakes => "user",
+            PK::User | PK::UserNonString | PK::UserInReturns | PK::UserInClosure | PK::UserMunmapFails | PK::InstallDuringUnwind | PK::ManyLiveFakes | PK::TwoOverCallsCaughtThenUserPanic => "user",
             PK::MprotectRxRefused | PK::UserInAsyncValue => {
                 if unsat {
                     "count-mismatch"
